@@ -159,7 +159,9 @@ func GenC02(rng *rand.Rand, thorough bool, emit func(*Sx)) {
 	// stop = -2 / -3 stand for "one / two octets short of the whole message" (resolved per body below)
 	plans := []DataPlan{}
 	for _, stop := range []int64{-1, 3, 0, -2, -3} {
-		for _, ret := range []BErr{BNil, rejectErr()} {
+		// (421 is the code of the server's own "closing the channel" replies: from a backend it is a verdict like
+		// any other, the command stream goes on behind the end marker)
+		for _, ret := range []BErr{BNil, rejectErr(), BSmtp(421, [3]int{4, 3, 2}, "try again later")} {
 			for _, prop := range []bool{true, false} {
 				p := DefaultPlan()
 				p.Stop, p.Ret, p.Prop = stop, ret, prop
